@@ -7,9 +7,11 @@
     walk_stack                    lib.rs:729-821
 
   `get_caller_by_cfi` is the parameter `Env.cfi` (instantiated in `Walk/Cfi.lean`).
-  The only arithmetic that can overflow (the harness is built with overflow checks) is the
-  Windows-x64 frame-pointer probe `last_bp + offset + POINTER_WIDTH`; it is an explicit
-  `Outcome.panic`.
+  Arithmetic: every `checked_add(..)?` of the code is an explicit range test here; the remaining
+  plain `+`/`-` sites are guarded locally in the code (`last_bp + PTR*2` after the `MAX - PTR*2`
+  guard, `address_of_ip - PTR` only for `i > 0`, `bp - address_of_bp` only for `bp > address_of_ip`,
+  `ip - adj` only for `ip >= 4096`), so no panic outcome exists in this model. (The Windows-x64
+  probe used to overflow; repaired in /repo by 90f11fe, which this model follows.)
 -/
 import MdModel.Walk.Common
 namespace MdModel.Walk
@@ -115,42 +117,43 @@ def scanX86 (env : Env) (mem : Mem) (c : Ctx) (t : Trust) : Option Ctx :=
 def stackSeemsValid (mem : Mem) (callerSp calleeSp : Nat) : Bool :=
   if callerSp ≤ calleeSp then false else (mem.read callerSp 8).isSome
 
-/-- the `resolve` closure of the amd64 frame-pointer unwinder; `n` iterations left, `k` = offset index -/
-def resolveAmd64 (mem : Mem) (bp sp step : Nat) : Nat → Nat → Outcome (Option (Nat × Nat × Nat))
-  | 0, _ => .ok none
+/-- the `resolve` closure of the amd64 frame-pointer unwinder; `n` iterations left, `k` = offset
+    index. A probe address that does not fit `u64` ends the search (`checked_add(..)?`). -/
+def resolveAmd64 (mem : Mem) (bp sp step : Nat) : Nat → Nat → Option (Nat × Nat × Nat)
+  | 0, _ => none
   | n + 1, k =>
     let off := k * step
-    if bp + off + 8 > U64MAX then .panic "amd64 get_caller_by_frame_pointer: last_bp + offset + POINTER_WIDTH"
+    if bp + off > U64MAX then none
+    else if bp + off + 8 > U64MAX then none
     else match mem.read (bp + off + 8) 8 with
-      | none => .ok none
+      | none => none
       | some ip => match mem.read (bp + off) 8 with
-        | none => .ok none
+        | none => none
         | some cbp =>
-          if bp + off + 16 > U64MAX then .panic "amd64 get_caller_by_frame_pointer: last_bp + offset + POINTER_WIDTH * 2"
+          if bp + off + 16 > U64MAX then none
           else
             let csp := bp + off + 16
             if csp ≤ bp ∨ cbp < csp then resolveAmd64 mem bp sp step n (k + 1)
             else match mem.read cbp 8 with
-              | none => .ok none
+              | none => none
               | some _ =>
                 if nonCanonAmd64 ip then resolveAmd64 mem bp sp step n (k + 1)
                 else if !stackSeemsValid mem csp sp then resolveAmd64 mem bp sp step n (k + 1)
-                else .ok (some (ip, cbp, csp))
+                else some (ip, cbp, csp)
 
-def fpAmd64 (os : Os) (mem : Mem) (c : Ctx) : Outcome (Option Ctx) :=
-  if !c.hasLit "rbp" then .ok none
-  else if !c.hasLit "rsp" then .ok none
+def fpAmd64 (os : Os) (mem : Mem) (c : Ctx) : Option Ctx :=
+  if !c.hasLit "rbp" then none
+  else if !c.hasLit "rsp" then none
   else
     let bp := c.raw .amd64 "rbp"
-    if bp ≥ U64MAX - 16 then .ok none
+    if bp ≥ U64MAX - 16 then none
     else
       let r := if os = .windows then resolveAmd64 mem bp c.sp Consts.win_probe_step (Consts.win_probe_max + 1) 0
                else resolveAmd64 mem bp c.sp 0 1 0
       match r with
-      | .panic s => .panic s
-      | .ok none => .ok none
-      | .ok (some (ip, cbp, csp)) =>
-        .ok (some { ip := ip, sp := csp, rest := [("rbp", cbp)], valid := some ["rip", "rsp", "rbp"] })
+      | none => none
+      | some (ip, cbp, csp) =>
+        some { ip := ip, sp := csp, rest := [("rbp", cbp)], valid := some ["rip", "rsp", "rbp"] }
 
 /-- amd64.rs:277-313 -/
 def scanBpAmd64 (mem : Mem) (lastBp : Option Nat) (i a csp : Nat) : Option (Option Nat) :=
@@ -282,13 +285,13 @@ def scanMips64 (env : Env) (mem : Mem) (c : Ctx) : Option Ctx :=
 /-! ### technique dispatch and the shared epilogue -/
 
 /-- `get_caller_by_frame_pointer` -/
-def byFp (env : Env) (a : Arch) (mem : Mem) (c : Ctx) : Outcome (Option Ctx) :=
+def byFp (env : Env) (a : Arch) (mem : Mem) (c : Ctx) : Option Ctx :=
   match a with
-  | .x86 => .ok (fpX86 mem c)
+  | .x86 => fpX86 mem c
   | .amd64 => fpAmd64 env.os mem c
-  | .arm => .ok (fpArm env.os mem c)
-  | .arm64 | .arm64old => .ok (fpArm64 env a mem c)
-  | .mips32 | .mips64 => .ok none
+  | .arm => fpArm env.os mem c
+  | .arm64 | .arm64old => fpArm64 env a mem c
+  | .mips32 | .mips64 => none
 
 /-- `get_caller_by_scan` -/
 def byScan (env : Env) (a : Arch) (mem : Mem) (c : Ctx) (t : Trust) : Option Ctx :=
@@ -302,17 +305,16 @@ def byScan (env : Env) (a : Arch) (mem : Mem) (c : Ctx) (t : Trust) : Option Ctx
 
 /-- the first technique that yields a frame: cfi, then frame pointer, then scan -/
 def candidate (env : Env) (a : Arch) (mem : Mem) (callee : Frame) (grand : Option Frame) :
-    Outcome (Option (Ctx × Trust)) :=
+    Option (Ctx × Trust) :=
   match env.cfi callee grand with
-  | some c => .ok (some (c, .cfi))
+  | some c => some (c, .cfi)
   | none =>
     match byFp env a mem callee.ctx with
-    | .panic s => .panic s
-    | .ok (some c) => .ok (some (c, .fp))
-    | .ok none =>
+    | some c => some (c, .fp)
+    | none =>
       match byScan env a mem callee.ctx callee.trust with
-      | some c => .ok (some (c, .scan))
-      | none => .ok none
+      | some c => some (c, .scan)
+      | none => none
 
 /-- the checks at the end of every `get_caller_frame` -/
 def epilogue (a : Arch) (callee : Frame) (c : Ctx) (t : Trust) : Option Frame :=
@@ -321,12 +323,11 @@ def epilogue (a : Arch) (callee : Frame) (c : Ctx) (t : Trust) : Option Frame :=
   else some { ctx := c, trust := t, instruction := c.ip - a.adj }
 
 /-- `get_caller_frame` -/
-def step (env : Env) (mem : Mem) (callee : Frame) (grand : Option Frame) : Outcome (Option Frame) :=
+def step (env : Env) (mem : Mem) (callee : Frame) (grand : Option Frame) : Option Frame :=
   let a := effArch env.arch callee.ctx
   match candidate env a mem callee grand with
-  | .panic s => .panic s
-  | .ok none => .ok none
-  | .ok (some (c, t)) => .ok (epilogue a callee c t)
+  | none => none
+  | some (c, t) => epilogue a callee c t
 
 /-- `fill_source_line_info` -/
 def symbolise (env : Env) (f : Frame) : Frame :=
@@ -335,29 +336,25 @@ def symbolise (env : Env) (f : Frame) : Frame :=
 
 /-- the loop of `walk_stack` from the moment a new frame `f` has been pushed (`g` = the frame
     before it); `fuel` bounds the number of iterations (see `walk_fuel_enough`). -/
-def walkLoop (env : Env) (mem : Mem) : Nat → Frame → Option Frame → Outcome (List Frame)
-  | 0, f, _ => .ok [symbolise env f]
+def walkLoop (env : Env) (mem : Mem) : Nat → Frame → Option Frame → List Frame
+  | 0, f, _ => [symbolise env f]
   | n + 1, f, g =>
     let f := symbolise env f
-    if !mem.inRange f.ctx.sp then .ok [f]
+    if !mem.inRange f.ctx.sp then [f]
     else match step env mem f g with
-      | .panic s => .panic s
-      | .ok none => .ok [f]
-      | .ok (some f') =>
-        match walkLoop env mem n f' (some f) with
-        | .panic s => .panic s
-        | .ok rest => .ok (f :: rest)
+      | none => [f]
+      | some f' => f :: walkLoop env mem n f' (some f)
 
 /-- fuel that always suffices: one iteration per byte of stack memory, plus two -/
 def walkFuel (mem : Mem) : Nat := mem.size + 2
 
 /-- `walk_stack` on `CallStack::with_context(ctx)` with the given stack memory
     (`mem = none`: no stack memory was supplied). -/
-def walk (env : Env) (mem : Option Mem) (ctx : Ctx) : Outcome (List Frame) :=
+def walk (env : Env) (mem : Option Mem) (ctx : Ctx) : List Frame :=
   let f0 := Frame.ofCtx ctx .context
   -- a stack memory without a `memory_range()` is dropped
   match mem.bind (fun m => m.range?.map fun _ => m) with
-  | none => .ok [symbolise env f0]
+  | none => [symbolise env f0]
   | some m => walkLoop env m (walkFuel m) f0 none
 
 end MdModel.Walk
